@@ -251,7 +251,9 @@ def framing(cls):
     """(per-item prefix width, separator length): how the body is longer than the sum of the item sizes."""
     kind = class_kind(cls)
     if kind == 'VectorEnumCodeString':
-        return cls.get_param().item_class.get_param().item_num_size, 0
+        # the per-item length byte is part of get_item_size (repaired in /repo: it used not to be counted,
+        # so a body could exceed the ceiling although _items_size was within bounds)
+        return 0, 0
     if kind == 'VectorString':
         return 0, len(cls.get_param().separator)
     return 0, 0
